@@ -425,7 +425,8 @@ func (p *notifier) notifyNow(event Event) error {
 				// no longer exists so done, this stops any go routine
 				return nil
 			}
-			return retry.Unrecoverable(err)
+			// the store may just be busy (lock not acquired in time): the event is neither delivered nor failed, so keep retrying
+			return err
 		}
 		if dbEvent == nil {
 			// no longer exists so done, this stops any go routine
@@ -455,7 +456,8 @@ func (p *notifier) notifyNow(event Event) error {
 		if err := p.db.WriteShelf(p.ctx, p.shelfName(), func(writer stoabs.Writer) error {
 			return p.writeEvent(writer, *dbEvent)
 		}); err != nil {
-			return retry.Unrecoverable(err)
+			// the outcome could not be recorded (the store may just be busy), so keep retrying
+			return err
 		}
 	}
 
